@@ -100,7 +100,7 @@ Delimited == Mode = "str" => Scan(Spell(units, quote), 1, quote) = Len(Spell(uni
 \* spelling: sign, integer digits, fraction digits ("" = no point), exponent text ("" = none)
 Mantissas == {"0", "7", "10", "007", "9007199254740993", "18446744073709551617", "123456789012345678901234567890", "1000000000000000000000000000000000000001"}
 Fractions == {"", "0", "5", "25", "000", "123456789"}
-Exps == {<<"", 0>>, <<"e0", 0>>, <<"e2", 2>>, <<"E3", 3>>, <<"e+1", 1>>, <<"E+22", 22>>, <<"e40", 40>>, <<"e-1", -1>>, <<"E-3", -3>>}
+Exps == {<<"", 0>>, <<"e0", 0>>, <<"e2", 2>>, <<"E3", 3>>, <<"e+1", 1>>, <<"E+22", 22>>, <<"e40", 40>>, <<"e-1", -1>>, <<"E-3", -3>>, <<"e-7", -7>>, <<"E-12", -12>>}
 Nums == {[neg |-> n, int |-> m, frac |-> f, exp |-> e] : n \in BOOLEAN, m \in Mantissas, f \in Fractions, e \in Exps}
 \* the lexer's two number tokens (lexer.py): FLOAT = d.d(e[+-]d)? | d e-d ; INT = d(e+?d)?
 IsInt(n) == n.frac = "" /\ n.exp[2] >= 0
@@ -163,8 +163,15 @@ Sites(q) == <<
 TStrPre == Cps("{{ ")
 TStrMid == Cps("${y}")
 TStrPost == Cps(" }}")
+\* sites inside a line-oriented {% liquid %} tag (serialised from its tokens): only the round trip through str()
+\* is judged there (C12) - a raw line break inside a literal is not that tag's syntax
+RtSites(q) == <<
+  [site |-> "liquid-echo", pre |-> "{% liquid echo ", post |-> " %}", before |-> "", after |-> "", hit |-> FALSE],
+  [site |-> "liquid-path", pre |-> "{% liquid echo h[", post |-> "] %}", before |-> "", after |-> "", hit |-> TRUE],
+  [site |-> "liquid-assign", pre |-> "{% liquid assign v = 'x' | append: ", post |-> "\n echo v %}", before |-> "x", after |-> "", hit |-> FALSE] >>
+AllSites(q) == IF Focus = "roundtrip-lit-str" THEN Sites(q) \o RtSites(q) ELSE Sites(q)
 \* (constant-level: TLC evaluates these once, not once per state)
-CSites(q) == [i \in DOMAIN Sites(q) |-> [Sites(q)[i] EXCEPT !.pre = Cps(@), !.post = Cps(@)]]
+CSites(q) == [i \in DOMAIN AllSites(q) |-> [AllSites(q)[i] EXCEPT !.pre = Cps(@), !.post = Cps(@)]]
 SitesDQ == CSites(DQ)
 SitesSQ == CSites(SQ)
 TStrSite == [site |-> "template-string-text", pre |-> "{{ ", post |-> " }}", before |-> "", after |-> "!", hit |-> FALSE]
@@ -177,7 +184,7 @@ ExportStr ==
         ss == IF quote = DQ THEN SitesDQ ELSE SitesSQ
         wide == Len(units) <= 1
     IN /\ \A i \in DOMAIN ss :
-            (wide \/ (Len(units) = 2 /\ ss[i].site \in {"output", "path-segment", "interpolated", "include-name", "render-name", "block-output"})
+            (wide \/ (Len(units) = 2 /\ ss[i].site \in {"output", "path-segment", "interpolated", "include-name", "render-name", "block-output", "liquid-path", "liquid-echo"})
                   \/ (Len(units) >= 3 /\ ss[i].site = "output")) =>
               Emit(ToJson([focus |-> Focus, kind |-> "str", site |-> ss[i].site, quote |-> quote,
                            src |-> ss[i].pre \o lit \o ss[i].post, value |-> Value(units),
